@@ -1,28 +1,272 @@
-import Model.Submit
+import Proofs.SubmitAct
 
-/-! # C07 — the DA-included height is sound, monotone, durable and eventually reached
-(first theorems; the pass invariant is under construction) -/
+/-!
+# C07 — the DA-included (final) height is sound, monotone, durable and eventually reached
+
+Model: `Submit.includerPass` / `Submit.includerIter` (`block/da_includer.go`, `IsDAIncluded` and
+`SetDAIncludedHeight` of `block/manager.go`), the marks written by `Submit.submitLoop`, `Submit.restart`; executable
+and compared with the real code on every run (stream C07).  `finals` is the log of `SetFinal` calls received by the
+execution layer (latest first); `daBlobs` the content of the DA double.
+-/
 namespace Spec.C07
 open Wire Chain Producer Submit
 
 /-- a pass of the inclusion loop never lowers the DA-included height -/
 theorem includerPass_monotone (fuel : Nat) (a : ANode) (ws : List SW) :
-    a.daInc ≤ (includerPass fuel a ws).1.daInc := by
-  induction fuel generalizing a ws with
-  | zero => simp [includerPass]
-  | succ n ih =>
-    unfold includerPass
-    simp only
-    split
-    · split
-      · exact Nat.le_refl _
-      · split
-        · exact Nat.le_refl _
-        · split
-          · exact Nat.le_refl _
-          · rename_i dd _
-            refine Nat.le_trans ?_ (ih _ _)
-            simp
-    · exact Nat.le_refl _
+    a.daInc ≤ (includerPass fuel a ws).1.daInc := includerPass_mono fuel a ws
+
+/-! ## the pass invariant (every fuel, every node) -/
+
+/-- **Monotone, one height at a time, finalized in order before reported, durable, at most the chain height.**
+The DA-included height never decreases; the `SetFinal` log gains exactly `old+1, …, new` in order (latest first), so its
+head is the reported height whenever that advanced; the persisted value equals the one in memory after an advance; the
+height stays at or below the chain height; the store is the old store with exactly the reported writes applied (three
+per height); marks, DA double, watermarks, blocks, chain height and state are untouched. -/
+theorem C07_pass_invariant (fuel : Nat) (a : ANode) :
+    let r := includerPass fuel a []
+    a.daInc ≤ r.1.daInc ∧
+    r.1.finals = (List.range' (a.daInc + 1) (r.1.daInc - a.daInc)).reverse ++ a.finals ∧
+    (a.daInc < r.1.daInc →
+      r.1.finals.head? = some r.1.daInc ∧ r.1.n.store.getMeta daIncKey = some (le64 r.1.daInc)) ∧
+    (a.daInc ≤ a.n.store.height → r.1.daInc ≤ r.1.n.store.height) ∧
+    r.1.n.store = a.n.store.applyAll r.2 ∧ r.2.length = 3 * (r.1.daInc - a.daInc) ∧
+    r.1.hMarks = a.hMarks ∧ r.1.dMarks = a.dMarks ∧ r.1.daBlobs = a.daBlobs ∧
+    r.1.n.hdrWm = a.n.hdrWm ∧ r.1.n.dataWm = a.n.dataWm ∧
+    r.1.n.store.blocks = a.n.store.blocks ∧ r.1.n.store.height = a.n.store.height := by
+  have hi := includerPass_inv fuel a a [] (PassInv.init a)
+  obtain ⟨rec, _, hws⟩ := hi.writes
+  refine ⟨hi.mono, hi.finals, fun h => ⟨(hi.persisted h).2, (hi.persisted h).1⟩, hi.le, hi.store, ?_,
+    hi.frame.hMarks, hi.frame.dMarks, hi.frame.daBlobs, hi.frame.hdrWm, hi.frame.dataWm, hi.frame.blocks, hi.frame.height⟩
+  rw [hws]
+  generalize (includerPass fuel a []).1.daInc - a.daInc = k
+  generalize a.daInc + 1 = s
+  induction k generalizing s with
+  | zero => simp
+  | succ k ih => rw [List.range'_succ, List.flatMap_cons, List.length_append, ih]; simp [incWrites]; omega
+
+/-- **Soundness of a pass.**  For every height `h` in `(old, new]`: the block `h` is stored, its header hash is marked
+DA-included (at DA height `hd`), its data commitment is the empty one (then `dd = hd`) or is marked (at `dd`); and the
+writes of the pass are exactly, height by height in increasing order, `rhb/<h>/h ↦ hd`, `rhb/<h>/d ↦ dd`, `d ↦ h`. -/
+theorem C07_pass_sound (fuel : Nat) (a : ANode) :
+    let r := includerPass fuel a []
+    ∃ rec : Nat → Nat × Nat,
+      (∀ h, a.daInc < h → h ≤ r.1.daInc → ∃ b, a.n.store.getBlock h = some b ∧
+        markOf a.hMarks b.sh.hdr.hash = some (rec h).1 ∧
+        ((b.data.daCommitment = emptyDataHash ∧ (rec h).2 = (rec h).1) ∨
+         (b.data.daCommitment ≠ emptyDataHash ∧ markOf a.dMarks b.data.daCommitment = some (rec h).2))) ∧
+      r.2 = (List.range' (a.daInc + 1) (r.1.daInc - a.daInc)).flatMap fun h =>
+        [SW.setMeta (rhbKey h "h") (le64 (rec h).1), SW.setMeta (rhbKey h "d") (le64 (rec h).2),
+         SW.setMeta daIncKey (le64 h)] := by
+  have hi := includerPass_inv fuel a a [] (PassInv.init a)
+  obtain ⟨rec, hrec, hws⟩ := hi.writes
+  exact ⟨rec, fun h h1 h2 => recHeights_some (hrec h h1 h2), hws⟩
+
+/-- **Eventually.**  If every height in `(daInc, h]` is stored (within the chain height) with its header hash marked and
+its data commitment empty or marked, one iteration of the inclusion loop ends with `daInc ≥ h`
+(the loop's bound `store.height + 1` is adequate). -/
+theorem C07_eventually (a : ANode) (h : Nat)
+    (hr : ∀ k, a.daInc < k → k ≤ h → k ≤ a.n.store.height ∧ ∃ b, a.n.store.getBlock k = some b ∧
+      (markOf a.hMarks b.sh.hdr.hash).isSome ∧
+      (b.data.daCommitment = emptyDataHash ∨ (markOf a.dMarks b.data.daCommitment).isSome)) :
+    h ≤ (includerIter a).1.daInc := by
+  by_cases hle : h ≤ a.daInc
+  · exact Nat.le_trans hle (includerPass_mono _ a [])
+  · have hh : h ≤ a.n.store.height := (hr h (by omega) (Nat.le_refl _)).1
+    apply includerPass_reaches
+    · intro k k1 k2
+      obtain ⟨r1, b, r2, r3, r4⟩ := hr k k1 k2
+      exact ready_of_marked r1 r2 r3 r4
+    · omega
+
+/-! ## with C06: a reported height is on the DA layer; every interleaving -/
+
+/-- **Every interleaving** of block production (any sequencer / execution response), header submission and data
+submission (any DA answer list each) and inclusion passes, from a fresh start, preserves: the DA-included height is at
+most the chain height; every mark `key ↦ dh` is the header hash (resp. data commitment) of a stored block whose header
+(resp. signed data) blob the DA double holds **at exactly the DA height `dh`**; and **every reported height
+`1 ≤ h ≤ daInc` is a stored block for which the DA double holds the header blob of a stored block with that header
+hash, and — unless the data commitment is the empty one — the signed-data blob of a stored non-empty block with that
+data commitment** (`HdrOnDA`, `DataOnDA`; "with that hash / commitment" because marks are keyed by hash / commitment). -/
+theorem C07_sound_every_interleaving (c : Cfg) (hpos : 1 ≤ c.initialHeight) (acts : List Act) :
+    let a := runA c { n := freshNode c } acts
+    a.daInc ≤ a.n.store.height ∧
+    (∀ e ∈ a.hMarks, ∃ k b, k ≤ a.n.store.height ∧ a.n.store.getBlock k = some b ∧ b.sh.hdr.hash = e.1 ∧
+      (e.2, false, b.sh.hdr.height) ∈ a.daBlobs) ∧
+    (∀ e ∈ a.dMarks, ∃ k b, k ≤ a.n.store.height ∧ a.n.store.getBlock k = some b ∧ b.data.daCommitment = e.1 ∧
+      b.data.txs ≠ [] ∧ (e.2, true, dataHeight b) ∈ a.daBlobs) ∧
+    (∀ h, 1 ≤ h → h ≤ a.daInc → ∃ b, a.n.store.getBlock h = some b ∧
+      (∃ dh, HdrOnDA a b.sh.hdr.hash dh) ∧
+      (b.data.daCommitment = emptyDataHash ∨ ∃ dh, DataOnDA a b.data.daCommitment dh)) := by
+  have hg := runA_G (c := c) (a := { n := freshNode c }) (G_fresh c hpos) acts
+  exact ⟨hg.incLe, hg.hM, hg.dM, hg.incSound⟩
+
+/-- the same invariant is preserved by every single action from any node that satisfies it -/
+theorem C07_invariant_step {c : Cfg} {a : ANode} (g : G c a) (act : Act) : G c (stepA c a act) := stepA_G g act
+
+/-- along every interleaving the DA-included height never decreases, and it changes only in inclusion passes -/
+theorem C07_monotone_every_interleaving (c : Cfg) (a : ANode) (acts : List Act) :
+    a.daInc ≤ (runA c a acts).daInc := runA_mono c a acts
+
+/-! ## restart -/
+
+/-- **A clean restart keeps the marks** (`SaveCache`), the DA double and the blocks, so "eventually" survives it: if
+after the restart every height in `(daInc, h]` is stored with both marks present *in the node before the stop*, one
+iteration of the inclusion loop reports `≥ h`. -/
+theorem C07_eventually_after_clean_restart {c : Cfg} {a a' : ANode} (h : Nat)
+    (hr : restart c a a.n.store true = some a') (hst : a.n.store.state ≠ none)
+    (hm : ∀ k, a'.daInc < k → k ≤ h → k ≤ a.n.store.height ∧ ∃ b, a.n.store.getBlock k = some b ∧
+      (markOf a.hMarks b.sh.hdr.hash).isSome ∧
+      (b.data.daCommitment = emptyDataHash ∨ (markOf a.dMarks b.data.daCommitment).isSome)) :
+    h ≤ (includerIter a').1.daInc := by
+  obtain ⟨hM, hD, hblk, hht⟩ := restart_clean_keeps hr hst
+  apply C07_eventually
+  intro k k1 k2
+  obtain ⟨r1, b, r2, r3, r4⟩ := hm k k1 k2
+  exact ⟨Nat.le_trans r1 hht, b, by rw [hblk]; exact r2, by rw [hM]; exact r3, by rw [hD]; exact r4⟩
+
+/-- the block at `h` is stored and the DA double holds its header blob and (unless empty) its data blob -/
+def onDA (a : ANode) (h : Nat) : Bool :=
+  match a.n.store.getBlock h with
+  | none => false
+  | some b =>
+    a.daBlobs.any (fun e => !e.2.1 && e.2.2 == b.sh.hdr.height) &&
+    (decide (b.data.daCommitment = emptyDataHash) || a.daBlobs.any (fun e => e.2.1 && e.2.2 == dataHeight b))
+
+def yCfg : Cfg := { chainId := "w", initialHeight := 1, genesisTime := 100, proposerAddr := [1], key := 1, signerAddr := [1] }
+
+/-- full soundness statement, height by height: every reported height is a stored block whose **own** header blob
+and (unless empty) **own** signed-data blob the DA double holds -/
+def C07_sound_by_height_full : Prop :=
+  ∀ (c : Cfg) (acts : List Act), 1 ≤ c.initialHeight →
+    ∀ h, 1 ≤ h → h ≤ (runA c { n := freshNode c } acts).daInc → onDA (runA c { n := freshNode c } acts) h = true
+
+/-- blocks 2 and 3 carry the same transaction list, hence the same data commitment; all headers are accepted, of the
+data only that of block 2 (then the submission is cancelled); the inclusion loop runs -/
+def qActs : List Act :=
+  [.produce (.batch [] 150 []) .ok, .produce (.batch [[1]] 200 []) .ok, .produce (.batch [[1]] 300 []) .ok,
+   .subH [], .subD [.ok (some 1), .canceled], .incl]
+
+/-- **Height by height the statement is false of the model** (kernel-checked): the marks are keyed by data commitment
+(`dataCache.SetDAIncluded(DACommitment)`), so block 3 — whose signed data was never accepted (`dataWm = 2`) — is reported
+and finalized because block 2 has the same commitment.  What does hold for every interleaving is
+`C07_sound_every_interleaving` (a stored block *with that commitment* is on the DA layer).  Model-level witness: to be
+replayed on the real node before it is recorded as a finding. -/
+theorem C07_sound_by_height_fails : ¬ C07_sound_by_height_full := by
+  intro h
+  have h1 : (runA yCfg { n := freshNode yCfg } qActs).daInc = 3 ∧
+      (runA yCfg { n := freshNode yCfg } qActs).n.dataWm = 2 ∧
+      onDA (runA yCfg { n := freshNode yCfg } qActs) 3 = false := by decide +kernel
+  have := h yCfg qActs (by decide) 3 (by omega) (by rw [h1.1]; exact Nat.le_refl _)
+  rw [h1.2.2] at this
+  cases this
+
+/-- full statement, crash restarts included: once both parts of every block up to `h` are on the DA layer, the node
+eventually (here: after one more header iteration, data iteration and inclusion pass with an accepting DA layer)
+reports `h` — also when it crashed and restarted in between -/
+def C07_eventually_after_crash_full : Prop :=
+  ∀ (c : Cfg) (a a' : ANode) (h : Nat), restart c a a.n.store false = some a' →
+    (∀ k, 1 ≤ k → k ≤ h → onDA a' k = true) →
+    h ≤ (runOps a' [.subH [], .subD [], .incl]).daInc
+
+/-- three blocks: the genesis block (empty) and two blocks with a transaction -/
+def yRun : List (SeqResp × ExecResp) :=
+  [(.batch [] 150 [], .ok), (.batch [[1]] 200 [], .ok), (.batch [[2]] 300 [], .ok)]
+/-- all headers and all data accepted by the DA layer — but the inclusion loop has not run yet -/
+def ySubmitted : ANode := runOps { n := run yCfg (freshNode yCfg) yRun } [.subH [], .subD []]
+/-- … and the node crashes and restarts (the marks live only in memory until a clean stop) -/
+def yCrashed : Option ANode := restart yCfg ySubmitted ySubmitted.n.store false
+
+/-- without the crash the inclusion loop reports 3 and finalizes 1, 2, 3 in order -/
+example : (includerIter ySubmitted).1.daInc = 3 ∧ (includerIter ySubmitted).1.finals = [3, 2, 1] := by
+  decide +kernel
+
+/-- the crashed node: watermarks at the chain height, no marks, everything on the DA layer -/
+theorem yCrashed_facts : ∃ a', yCrashed = some a' ∧ a'.n.store.height = 3 ∧ a'.n.hdrWm = 3 ∧ a'.n.dataWm = 3 ∧
+    a'.hMarks = [] ∧ a'.daInc = 0 ∧ onDA a' 1 = true ∧ onDA a' 2 = true ∧ onDA a' 3 = true := by
+  have h : (match yCrashed with
+      | some a' => decide (a'.n.store.height = 3) && decide (a'.n.hdrWm = 3) && decide (a'.n.dataWm = 3) &&
+          decide (a'.hMarks.length = 0) && decide (a'.daInc = 0) && onDA a' 1 && onDA a' 2 && onDA a' 3
+      | none => false) = true := by decide +kernel
+  cases hc : yCrashed with
+  | none => rw [hc] at h; simp at h
+  | some a' =>
+    rw [hc] at h
+    simp only [Bool.and_eq_true, decide_eq_true_eq] at h
+    obtain ⟨⟨⟨⟨⟨⟨⟨h1, h2⟩, h3⟩, h4⟩, h5⟩, h6⟩, h7⟩, h8⟩ := h
+    exact ⟨a', rfl, h1, h2, h3, List.eq_nil_of_length_eq_zero h4, h5, h6, h7, h8⟩
+
+/-- **After a crash the node is idle for ever**: nothing is pending (the watermarks are past all heights), the marks
+are gone, so for *every* further sequence of header iterations, data iterations and inclusion passes, whatever the DA
+layer answers, the node stays exactly as it is — the DA-included height stays 0 although all three blocks are on the
+DA layer (recorded finding `C07/eventually/marks-lost-on-crash`). -/
+theorem C07_stalls_for_ever_after_crash : ∃ a', yCrashed = some a' ∧ (∀ k, 1 ≤ k → k ≤ 3 → onDA a' k = true) ∧
+    ∀ ops : List Op, runOps a' ops = a' ∧ (runOps a' ops).daInc = 0 := by
+  obtain ⟨a', hc, h1, h2, h3, h4, h5, h6, h7, h8⟩ := yCrashed_facts
+  have hidle : Idle a' :=
+    { hdr := by omega, data := fun h ha hb => by omega, incl := incNext_none_of_no_marks h4 }
+  refine ⟨a', hc, ?_, fun ops => ⟨idle_forever hidle ops, by rw [idle_forever hidle ops]; exact h5⟩⟩
+  intro k k1 k2
+  have : k = 1 ∨ k = 2 ∨ k = 3 := by omega
+  rcases this with rfl | rfl | rfl <;> assumption
+
+/-- **The full statement is false of the current code.** -/
+theorem C07_eventually_after_crash_fails : ¬ C07_eventually_after_crash_full := by
+  intro hfull
+  obtain ⟨a', hc, hon, hstay⟩ := C07_stalls_for_ever_after_crash
+  have := hfull yCfg ySubmitted a' 3 hc hon
+  rw [(hstay _).2] at this
+  omega
+
+/-- the general reason: a node with nothing pending and no mark for the next block never changes again -/
+theorem C07_idle_for_ever {a : ANode} (h1 : a.n.store.height = a.n.hdrWm)
+    (h2 : ∀ h, a.n.dataWm < h → h ≤ a.n.store.height → ∃ b, a.n.store.getBlock h = some b ∧ b.data.txs = [])
+    (h3 : a.hMarks = []) (ops : List Op) : runOps a ops = a :=
+  idle_forever ⟨h1, h2, incNext_none_of_no_marks h3⟩ ops
+
+/-- **Partial statement** (everything except the refuted case: clean restarts): see
+`C07_eventually_after_clean_restart` — stated once more in the form of the full statement, with the marks as the
+hypothesis instead of the DA content. -/
+theorem C07_eventually_partial {c : Cfg} {a a' : ANode} (h : Nat)
+    (hr : restart c a a.n.store true = some a') (hst : a.n.store.state ≠ none)
+    (hm : ∀ k, a'.daInc < k → k ≤ h → k ≤ a.n.store.height ∧ ∃ b, a.n.store.getBlock k = some b ∧
+      (markOf a.hMarks b.sh.hdr.hash).isSome ∧
+      (b.data.daCommitment = emptyDataHash ∨ (markOf a.dMarks b.data.daCommitment).isSome)) :
+    h ≤ (runOps a' [.incl]).daInc :=
+  C07_eventually_after_clean_restart h hr hst hm
+
+/-! ## non-vacuity -/
+
+/-- the hypotheses of `C07_eventually` hold of the node with everything submitted (`h = 3`) -/
+example : ∀ k, ySubmitted.daInc < k → k ≤ 3 → k ≤ ySubmitted.n.store.height ∧
+    ∃ b, ySubmitted.n.store.getBlock k = some b ∧ (markOf ySubmitted.hMarks b.sh.hdr.hash).isSome ∧
+      (b.data.daCommitment = emptyDataHash ∨ (markOf ySubmitted.dMarks b.data.daCommitment).isSome) := by
+  have h : ∀ k ∈ [1, 2, 3], k ≤ ySubmitted.n.store.height ∧
+      ((ySubmitted.n.store.getBlock k).map fun b => (markOf ySubmitted.hMarks b.sh.hdr.hash).isSome &&
+        (decide (b.data.daCommitment = emptyDataHash) || (markOf ySubmitted.dMarks b.data.daCommitment).isSome)) = some true := by
+    decide +kernel
+  intro k k1 k2
+  have hk : k ∈ [1, 2, 3] := by simp; omega
+  obtain ⟨r1, r2⟩ := h k hk
+  refine ⟨r1, ?_⟩
+  cases hb : ySubmitted.n.store.getBlock k with
+  | none => rw [hb] at r2; simp at r2
+  | some b =>
+    rw [hb] at r2
+    simp only [Option.map_some, Option.some.injEq, Bool.and_eq_true, Bool.or_eq_true, decide_eq_true_eq] at r2
+    exact ⟨b, rfl, r2.1, r2.2⟩
+
+/-- a clean restart of the same node keeps the marks: the inclusion loop then reports 3 -/
+example : ((restart yCfg ySubmitted ySubmitted.n.store true).map fun a' => (includerIter a').1.daInc) = some 3 := by
+  decide +kernel
+
+/-- an interleaving: produce, submit headers through a DA outage, include (block 1 is empty: reported), produce a
+non-empty block, submit headers only, include (not reported: its data is missing) -/
+def yMixed : ANode := runA yCfg { n := freshNode yCfg }
+  [.produce (.batch [] 150 []) .ok, .subH [.error, .ok none], .incl, .produce (.batch [[1]] 200 []) .ok, .subH [], .incl]
+
+/-- … then submit data and include: reported, finalized in order -/
+example : yMixed.daInc = 1 ∧ (runA yCfg yMixed [.subD [], .incl]).daInc = 2 ∧
+    (runA yCfg yMixed [.subD [], .incl]).finals = [2, 1] := by
+  decide +kernel
 
 end Spec.C07
